@@ -19,6 +19,13 @@ def check(pid, text, note, technique, design):
 
 import manifest_table  # noqa: E402  fills CHECKS / NA
 manifest_table.fill(check, NA)
+import glob
+for f in sorted(glob.glob(os.path.join(V, "harness", "manifest_entries", "*.json"))):
+    e = json.load(open(f))
+    if e.get("not_applicable"):
+        NA[e["property_id"]] = e["not_applicable"]
+    else:
+        check(e["property_id"], e["text"], e["note"], e["technique"], e.get("design", "5/" + e["property_id"]))
 
 props = [json.loads(l)["id"] for l in open(os.path.join(V, "properties.jsonl"))]
 m = {
